@@ -174,6 +174,8 @@ func fillPayload(pl rpccp.Payload, token, w1 uint64, caps []capDesc) error {
 			ct.At(i).SetReceiverHosted(c.id)
 		case "senderPromise":
 			ct.At(i).SetSenderPromise(c.id)
+		case "thirdParty":
+			ct.At(i).Struct.SetUint16(0, 9) // unknown descriptor kind
 		default:
 			ct.At(i).SetNone()
 		}
@@ -614,7 +616,7 @@ func (p *peer) process(data []byte) {
 			q.target = fmt.Sprintf("imp:%d", tg.ImportedCap())
 			if e := p.mine[tg.ImportedCap()]; e == nil || e.refs <= 0 {
 				p.r.mfail("call_on_released_import", "import.go:(*importClient).Send", fmt.Sprintf("the Conn called import %d which it does not hold (refs=%v)", tg.ImportedCap(), e))
-				return
+				q.mustFail = true // (only reached when the monitor is off: the peer still has to answer)
 			}
 		case rpccp.MessageTarget_Which_promisedAnswer:
 			pa, _ := tg.PromisedAnswer()
